@@ -344,6 +344,8 @@ impl Work<Context, AnyWorkId, Error> for ColrWork {
             .variant(FeWorkId::PaintGraph)
             .variant(FeWorkId::ColorPalettes)
             .variant(WorkId::ALL_GLYF_FRAGMENTS)
+            // composite glyphs only get their bounding box when glyf is assembled
+            .variant(WorkId::Glyf)
             .specific_instance(FeWorkId::GlyphOrder)
             .specific_instance(FeWorkId::StaticMetadata)
             .build()
